@@ -99,6 +99,10 @@ func (c *matcherCompiler) compile(v reflect.Value) Matcher {
 		})
 	case goast.ForStmtPtrType:
 		return c.compileForStmt(v)
+	case goast.CaseClausePtrType:
+		if cc := v.Interface().(*ast.CaseClause); cc != nil && cc.List != nil {
+			return caseClauseMatcher{Matcher: c.compileGeneric(v)}
+		}
 
 		// TODO: Dedupe
 	case goast.CommentGroupPtrType:
@@ -120,6 +124,20 @@ type matcherFunc func(reflect.Value) bool
 
 func (f matcherFunc) Match(v reflect.Value, d data.Data, _ Region) (data.Data, bool) {
 	return d, f(v)
+}
+
+// caseClauseMatcher matches a "case" clause of a switch statement.
+//
+// A "default" clause is a clause without a list of expressions. A list with
+// "..." in the patch can stand for no expressions at all, but "case ...:" is
+// still a clause that begins with "case".
+type caseClauseMatcher struct{ Matcher }
+
+func (m caseClauseMatcher) Match(got reflect.Value, d data.Data, r Region) (data.Data, bool) {
+	if cc, ok := got.Interface().(*ast.CaseClause); ok && cc != nil && cc.List == nil {
+		return d, false
+	}
+	return m.Matcher.Match(got, d, r)
 }
 
 var (
